@@ -626,6 +626,36 @@ def runFn (P : Prog) : Nat → CallF
       | .err e => .error e
       | .more _ _ _ => .error .fuel
 
+/-! ## the same blocks as an instance of `RustGen`'s abstract instruction semantics -/
+
+/-- instruction number `k` of the function (blocks concatenated) -/
+def Fn.look (f : Fn) (k : Nat) : Option Ins := f.blocks.flatten[k]?
+
+abbrev RetM := Except Err (List UInt64 × MSt)
+
+/-- `RustGen.Sem` instantiated with the MIR instruction semantics: `op k` is instruction `k` (`none` = any error),
+`truthy` the VM's `> 0`, `scrut` the word as `i64`, `move` the phi copy, `result k` the return instruction `k` -/
+def mirSem (callF : CallF) (P : Prog) (f : Fn) : Sem MSt RetM where
+  op k s := match f.look k with
+    | some i => (stepIns callF P i s).toOption
+    | none => none
+  truthy := truthyM
+  scrut := scrutM
+  move := moveM
+  result k s := match f.look k with
+    | some i => retM i s
+    | none => .error (.stuck "no such instruction")
+
+def FlowM.toFlow : FlowM → Flow MSt RetM
+  | .next bb pred s => .next bb pred s
+  | .ret r => .ret r
+  | .err _ => .panic
+
+def OutM.toOut : OutM → Out MSt RetM
+  | .ret r => .ret r
+  | .err _ => .panic
+  | .more bb pred s => .more bb pred s
+
 /-! ## whole programs -/
 
 structure Machine where
